@@ -1,17 +1,78 @@
+_SHAPES_PLAIN = 4 + 16 + 64          # every shape with sides 1..4 in dimension 1..3
+_SHAPES_PER = 6 + 36 + 216           # per direction: non-periodic side 1..4 or periodic side 3..4, dimension 1..3
+
 SPEC = {
     "property": "C13",
-    "rule": "placeholder",
-    "assumptions": [],
+    "rule": "one case = one grid complex built through the public constructors of Bitmap_cubical_complex over "
+            "Bitmap_cubical_complex_base (unit plain) or Bitmap_cubical_complex_periodic_boundary_conditions_base (unit periodic, every "
+            "subset of periodic directions incl. none), from top-cell values or from vertex values. *_shapes configs enumerate EVERY shape "
+            "of dimension 1..3 with sides 1..4 (periodic sides 3..4) by case index (k mod #shapes) with random values; *_4d configs draw random "
+            "4-D shapes (mask = k mod 16, cells capped at 2600 quick / 4200 thorough); *_constant configs use constant values and sides up to "
+            "12/9/6/4. Values: 1..64 dyadic levels (heavy ties) with +inf with probability 0, 1/16, 1/6 or 1/2 (sometimes all +inf) and, in 1/6 of the cases, -inf with probability 1/12 or 1/4. "
+            "Compared for EVERY cell against cubical_model.h (coordinate tuples in the doubled grid): dimension; boundary as a multiset and "
+            "coboundary as a set against the geometric (wrap-around) faces/cofaces; boundary/coboundary converse (library answers only); "
+            "two distinct ends per edge; alternating signs along the enumeration compose to zero (dd=0); compute_incidence_between_cells is "
+            "+-1, equals the documented formula and alternates along the enumerated boundary (the documented guarantee); value = min over top "
+            "cells containing the cell / max over its vertices; iteration order of top cells and vertices. Then filtration_simplex_range is a "
+            "permutation, non-decreasing and faces-first; Persistent_cohomology (persistence_dim_max=true) over p in {2,3,5}: positive-length "
+            "diagram equals oracle/zp_reduce.h run on the model cells (model signs) listed in the validated order, and the essential classes "
+            "per dimension equal C(k, j) of T^k x D^(d-k). non-trivial = dimension >= 2, >= 2 distinct input values and >= 2 positive-length "
+            "intervals (or, for *_constant, dimension >= 2 with >= 1 periodic direction); distinct by hash of the logged input.",
+    "assumptions": [
+        "cell handles are bitmap positions: mixed-radix number of the doubled coordinates, first direction fastest (documented order of the "
+        "input values; cross-checked through the public top-cell and vertex iterators)",
+        "periodic sides have length >= 3 (property quantifier); NaN values are not generated",
+        "persistence is compared as a diagram of values without zero-length intervals, not as a pairing of cells (Persistent_cohomology's H0 "
+        "union-find applies the elder rule on values, so among tied cells another representative may be kept)",
+        "compute_incidence_between_cells is only called on incident pairs; its sign IS compared with the formula in its documentation, "
+        "while the boundary enumeration is only required to be a valid incidence function (no fixed convention)",
+        "the top-cell iterator is not exercised when a vertex-input grid has a single vertex in some direction (no top cells exist)",
+        "trusted: cubical_model.h, oracle/zp_reduce.h, libstdc++",
+    ],
     "units": [
         {"name": "plain", "src": ["c13_plain.cpp"], "variant": "asan",
-         "configs": {"plain_top_shapes": {"quick": 252, "thorough": 16800}, "plain_vert_shapes": {"quick": 252, "thorough": 16800},
-                     "plain_top_4d": {"quick": 60, "thorough": 3000}, "plain_vert_4d": {"quick": 60, "thorough": 3000},
-                     "plain_constant": {"quick": 80, "thorough": 2000}}, "chunk": 10},
+         "configs": {"plain_top_shapes": {"quick": _SHAPES_PLAIN * 6, "thorough": _SHAPES_PLAIN * 200},
+                     "plain_vert_shapes": {"quick": _SHAPES_PLAIN * 6, "thorough": _SHAPES_PLAIN * 200},
+                     "plain_top_4d": {"quick": 100, "thorough": 3000}, "plain_vert_4d": {"quick": 100, "thorough": 3000},
+                     "plain_constant": {"quick": 160, "thorough": 4000}}, "chunk": 10},
         {"name": "periodic", "src": ["c13_periodic.cpp"], "variant": "asan",
-         "configs": {"per_top_shapes": {"quick": 516, "thorough": 51600}, "per_vert_shapes": {"quick": 516, "thorough": 51600},
-                     "per_top_4d": {"quick": 320, "thorough": 8000}, "per_vert_4d": {"quick": 320, "thorough": 8000},
-                     "per_constant": {"quick": 160, "thorough": 4000}}, "chunk": 10},
+         "configs": {"per_top_shapes": {"quick": _SHAPES_PER * 4, "thorough": _SHAPES_PER * 200},
+                     "per_vert_shapes": {"quick": _SHAPES_PER * 4, "thorough": _SHAPES_PER * 200},
+                     "per_top_4d": {"quick": 480, "thorough": 7000}, "per_vert_4d": {"quick": 480, "thorough": 7000},
+                     "per_constant": {"quick": 320, "thorough": 8000}}, "chunk": 10},
     ],
     "floors": {"quick": {}, "thorough": {}},
-    "manifest": {"text": "placeholder", "note": "", "technique": "runtime monitoring"},
+    "exhaustive": {"quick": False, "thorough": False},
+    "exhaustive_note": "shapes (sides 1..4, periodic sides 3..4, every periodic mask) are enumerated completely in dimension <= 3 in both tiers; "
+                       "values are sampled",
+    "manifest": {
+        "text": "Runtime monitor under ASan+UBSan: thousands of cubical grids (every shape with sides <= 4 in dimension <= 3 with every periodic "
+                "mask, random 4-D grids, both base classes, top-cell and vertex input, tied and infinite values) are built with the real "
+                "constructors; for every cell the dimension, boundary, coboundary, incidence numbers and filtration value are compared with an "
+                "independent coordinate-tuple model of the (periodic) grid, dd=0 is checked on the enumerated alternating signs, the filtration "
+                "range is checked to be total, monotone and faces-first, and Persistent_cohomology over Z_2, Z_3, Z_5 is compared with a naive "
+                "column reduction of the model complex and with the Betti numbers of T^k x D^(d-k). Held on what was observed, not a proof; "
+                "shapes are exhaustive up to side 4 in dimension <= 3, values are sampled.",
+        "note": "trusted: harness/c13_cubical/cubical_model.h, harness/oracle/zp_reduce.h; handles are bitmap positions (cross-checked through "
+                "the public iterators); periodic sides >= 3; no NaN; diagrams compared, not cell pairings",
+        "technique": "runtime monitoring: enumerated + randomized inputs, reference-model oracle on every cell and naive Z_p reduction, under "
+                     "AddressSanitizer/UBSan",
+    },
 }
+
+# coverage floors (about half of what a normal run measures)
+_q = SPEC["floors"]["quick"]
+_t = SPEC["floors"]["thorough"]
+for _d in (1, 2, 3, 4):
+    for _m in range(1 << _d):
+        _name = "grid.d%d.m%s" % (_d, "".join("1" if (_m >> _i) & 1 else "0" for _i in range(_d)))
+        _q[_name] = 25          # every (dimension, periodic mask)
+        _t[_name] = 500
+_q.update({"grid.length1_side": 1000, "grid.single_vertex_side": 400, "grid.has_inf": 800, "grid.has_neg_inf": 250, "grid.has_ties": 2000,
+           "grid.input.top": 1100, "grid.input.vertices": 1100, "grid.class.plain": 650, "grid.class.periodic": 1600,
+           "cells.with_wrapped_face": 200000, "cells.with_wrapped_coface": 200000, "cmp.dd_zero": 500000, "cmp.incidence": 3000000,
+           "cmp.persistence.p2": 2000, "cmp.persistence.p3": 2000, "cmp.persistence.p5": 2000, "pairs.finite": 20000,
+           "pairs.dim2": 6000, "pairs.dim3": 1000, "betti.periodic_checked": 3500, "_distinct_nontrivial": 1600})
+_t.update({"grid.length1_side": 30000, "grid.single_vertex_side": 12000, "grid.has_inf": 25000, "cells.with_wrapped_face": 5000000,
+           "cmp.dd_zero": 10000000, "cmp.persistence.p3": 70000, "pairs.finite": 500000, "pairs.dim3": 20000,
+           "betti.periodic_checked": 100000, "_distinct_nontrivial": 50000})
